@@ -48,4 +48,20 @@ Proof.
   pose proof (i_nolive K s I o Hnl). pose proof (i_count K s I o). lia.
 Qed.
 
+(* an object just created or just obtained from the pool, before its first increment: it is live, its
+   count is zero, and the one reference unit in the whole system that designates it is the pending
+   store of the thread that created / obtained it -- one owner, nobody else *)
+Theorem fresh_single_owner : forall s0 s t o, inv1 K s0 -> progs_ok s0 -> reachable N K s0 s ->
+  t < length (s_thr s) -> In (AInc o None) (t_todo (thr s t)) ->
+  is_live (hobj s o) = true /\ o_cnt (hobj s o) = 0 /\ units o s = 1 /\ slots o s = 0 /\
+  forall u, u < length (s_thr s) -> u <> t -> thr_units o (thr s u) = 0.
+Proof.
+  intros s0 s t o I0 P0 H Ht Hin. destruct (reachable_inv1 N K s0 s I0 P0 H) as (I & _).
+  pose proof (i_acts K s I t _ Ht Hin) as A. cbn in A. destruct A as (A1 & A2 & A3).
+  split; auto. split; auto. split; auto.
+  destruct (zero_no_slots K s o I A2) as (Z1 & Z2). split; auto.
+  intros u Hu Hne. pose proof (fresh_units K s t o I Ht Hin) as F.
+  pose proof (thr_units2_le s o t u Ht Hu (not_eq_sym Hne)). lia.
+Qed.
+
 End More.
